@@ -24,7 +24,8 @@ func init() {
 			"(4) delete/undelete/destroy/data-delete modify only entries meta.Versions[n] of the metadata read under the lock with n taken from the request's versions field (CurrentVersion for data delete), never a missing entry, never the deletion time of a destroyed one, and persist that same record; destroy persists Destroyed before deleting version data, and deletes only keys of the named numbers; metadata delete removes only the version keys listed in the key's own metadata and its metadata entry, the latter never after a failed version delete; metadata PATCH can only touch the five settings fields; " +
 			"metadata PUT and metadata PATCH persist the metadata record only behind an exact check-and-set on the metadata version (a supplied metadata_cas must equal CurrentMetadataVersion of the record read under the lock, or 0 for a new key), and a request without metadata_cas reaches the write neither when the key's nor when the engine's metadata_cas_required is set (required = key OR engine; evaluated phi-sensitively so that the short-circuit value is followed); " +
 			"(5) data/subkeys reads hold the read lock, read the version data of the same number whose metadata entry they checked (current or requested), and only for an existing, non-destroyed, not-yet-deleted version; the payload returned lies behind a successful, non-empty storage Get; " +
-			"(3) no error result of a storage call, transaction call or kv storage helper in package kv is dropped (deferred Rollback excepted).",
+			"(3) no error result of a storage call, transaction call or kv storage helper in package kv is dropped (deferred Rollback excepted); " +
+			"second-tier mechanisms: getVersionKey salts an identifier that depends on both the key and the version number and returns a key built from that salted id; getKeyMetadata reads the record of its key parameter through Wrap(getKeyEncryptor, storage parameter), answers (nil, nil) only for an absent item and a record only after a successful Get and decode, and writeKeyMetadata writes (meta.Key, Marshal(meta)) through the same wrapper; every Configuration that config() hands out is the cached object or a literal copying every exported setting from b.globalConfig; HandlePatchOperation merges with the stored resource as document and the pre-processed request as patch, and the kv patch pre-processor hands on exactly the request's data field; patch reads and merges its base only for an existing, non-destroyed, not-yet-deleted current version; the upgradeCheck wrapper reaches the wrapped handler only across upgrading.Load() being false, and the upgrade goroutine clears the flag only after the last per-key rewrite; the per-key lock table is written only by the factory.",
 		NotDecided: "linearizability of concurrent histories as such (schedules); 'affects only the versions named' beyond the provenance of the version numbers (value-level set reasoning: AddVersion's pruning window arithmetic, the JSON merge in metadata patch, cleanupOldVersions stopping at the first missing blob); atomicity on non-transactional storage when a failure hits between the version write and the metadata write (by design there is none); conflict detection / isolation inside the storage transaction implementation; the engine configuration (read outside the per-key lock and transaction by design); the upgrade routine (upgrade.go upgradeKey), which is not a registered handler and runs while all handlers are refused.",
 		Run:        runC14,
 	})
@@ -806,6 +807,10 @@ func runC14(c *eng.Ctx, thorough bool) {
 	for w := range wrappers {
 		c.Clause("R5", "C14.1")
 		for _, cl := range eng.Closures(w) {
+			// only closures shaped like an operation handler are wrappers (an unrelated helper closure is not)
+			if cl.Signature.Params().Len() != 3 || cl.Signature.Results().Len() != 2 {
+				continue
+			}
 			if sts := eng.Stores(cl, `^(`+regexp.QuoteMeta(c14ParamName(cl, "logical.Request"))+`|`+regexp.QuoteMeta(c14ParamName(cl, "framework.FieldData"))+`)\.`); len(sts) > 0 {
 				c.Violation(cl, "wrapper calls the wrapped handler", sts[0].Pos(), "the operation wrapper rewrites the request before handing it on: "+eng.InstrStr(sts[0]), nil)
 				continue
@@ -830,6 +835,7 @@ func runC14(c *eng.Ctx, thorough bool) {
 			}
 		}
 	}
+	runC14Gaps2(c)
 }
 
 // ---------------------------------------------------------------------------
